@@ -7,6 +7,7 @@ import (
 	"go/constant"
 	"go/token"
 	"go/types"
+	"regexp"
 	"strings"
 
 	"golang.org/x/tools/go/ssa"
@@ -107,6 +108,7 @@ type Exec struct {
 	guard                *Term
 	spec                 int
 	rawInit              bool
+	regexps              map[*Loc]*regexp.Regexp
 	noMerge              bool
 	specBudget           int
 	specMarkID           int
